@@ -180,4 +180,18 @@ PROPS = {
         "text": "Every read inside a transaction must equal the committed state at its start overlaid with its own writes; reads outside see only committed state, and after every commit/discard the committed state is compared; a commit may fail only with the conflict error; two overlapping transactions (or a transaction and an outside write) that modified the same document must not both succeed.",
         "note": "Trusted: the reference model (per-transaction copy of the committed map). Concurrency inside one call (goroutines) is C16's subject, not this check's.",
     },
+    "C07": {
+        "engine": "E5", "level": "exploration", "design_ref": "DESIGN.md §5 C07",
+        "technique": "deterministic simulation, differential twin: an indexed node and an otherwise identical node without indexes are driven by one seeded history (local writes, merges of remote commits, index create/drop at arbitrary points, restarts); generated requests are compared after each checkpoint; unique-index oracle from a model of live values",
+        "rule": ("index sets of 1-4 indexes from a pool of 15 (single / composite / unique, ascending / descending, on string, int, float, bool, date-time, string array, int array, JSON, counter, relation fields), created before the data or in mid-history, dropped and re-created; "
+                 "histories of 6-35 steps; values from edge-case pools (int64 extremes, +-0, 1e300, 5e-324, empty / non-ASCII strings, nanosecond times); 12 generated requests per checkpoint (comparison, membership, like, array and JSON operators, _and/_or, order, limit/offset only with order) plus relation reads. "
+                 "distinct_nontrivial = distinct (active index set, operator signature) pairs for which execute-explain shows index fetches on the indexed node (sampled 1 in 4)"),
+        "real_vs_stub": "real: index maintenance on local writes and merges, planner index selection, index fetchers/iterators/matchers, join inversion; badger in-memory under SimStore; stub: remote commits delivered by block copy + synchronous merge hook; restart = log replay",
+        "assumptions": ASSUME_COMMON + ["request generation is input sampling; what the simulation adds is the history (merges, DDL at arbitrary points, restarts)"],
+        "probes": ["requests_compared", "requests_served_from_index", "remote_commits_merged", "indexes_created", "indexes_dropped", "restarts", "unique_rejects"],
+        "quick": {"count": 12, "budget_s": 70, "workers": 16},
+        "thorough": {"count": 100000, "budget_s": 1500, "workers": 16},
+        "text": "Same multiset of rows with and without indexes; with an order clause the same sequence of sort keys (limit/offset compared as sort-key sequences only); a request must not fail only on the indexed node; a unique index rejects a local write exactly when the model says a live document holds the same non-null value (composite: same tuple with every component non-null).",
+        "note": "Four known findings are listed in known_findings.txt (array _all, JSON top-level scalars, index on a counter, _in with order); two thirds of the plans avoid those features so that the rest of the space is explored undisturbed. A mismatch found with a compound request is attributed to a single condition when that condition alone reproduces it.",
+    },
 }
